@@ -110,6 +110,19 @@ CHECKS['C18'] = dict(
     technique="TLA+ parameter-store and life-cycle models, TLC trace validation of recorded parameter round-trips and histories",
     ref="DESIGN.md section 5 C18")
 
+CHECKS['C05'] = dict(
+    text=("TLC exhausts MC_Preproc (all index arrays of <= 2 rows over 3 points, tuple sizes 1..4: column-wise formation "
+          "equals the point-wise definition and preserves order); the enumerated index arrays plus random larger ones "
+          "(repeats, arbitrary order, every integer dtype) are issued to all 17 estimators for every data-taking method "
+          "(fit, transform, pair_distance, pair_score, predict, decision_function, score, calibrate_threshold) in four "
+          "representations {formed, ndarray / nested-list / callable preprocessor}; TLC (TR_Preproc) requires identical "
+          "digests of outputs and of the fitted state, no preprocessor call for formed data, and PreprocessorError for "
+          "a raising callable."),
+    note=("Equality on bytes. How often the callable is consulted is not fixed by the statement; it is compared with the "
+          "specification's column-wise calls and reported (clause prefix X05) but never counted as a violation."),
+    technique="TLA+ definition of point/tuple formation, TLC-enumerated index patterns replayed into code in four representations, TLC trace validation",
+    ref="DESIGN.md section 5 C05")
+
 NOT_YET = {}
 
 def main():
